@@ -49,6 +49,11 @@ type apiCase struct {
 	Chunked bool     `json:"chunked"`
 	CCGen   *uint32  `json:"ccgen"` // generation of the server's ClientConf
 	ZmqFail bool     `json:"zmqfail"`
+	// header dimension: verbatim extra header lines ("Name: value") for the real-server run; with NoCLen the driver
+	// writes no Content-Length of its own (the lines carry it, or nothing does); SrvOnly: no recorder run
+	RawHdr  []string `json:"raw_hdr"`
+	NoCLen  bool     `json:"no_clen"`
+	SrvOnly bool     `json:"srv_only"`
 }
 
 type selObs struct {
@@ -71,6 +76,7 @@ type apiObs struct {
 	RecDetail string      `json:"rec_detail"`
 	RecCode   int         `json:"rec_code"`
 	RecPub    int         `json:"rec_pub"`
+	XffSplit  []int       `json:"xff_split"` // len(strings.Split(v, ",")) for every X-Forwarded-For value
 }
 
 var verifTransports = map[pb.TransportType]lib.Transport{
@@ -189,7 +195,13 @@ func TestVerifC11Api(t *testing.T) {
 				for _, v := range c.XFF {
 					fmt.Fprintf(&req, "X-Forwarded-For: %s\r\n", v)
 				}
-				if c.Chunked {
+				for _, l := range c.RawHdr {
+					req.WriteString(l + "\r\n")
+				}
+				if c.NoCLen {
+					req.WriteString("\r\n")
+					req.Write(body)
+				} else if c.Chunked {
 					fmt.Fprintf(&req, "Transfer-Encoding: chunked\r\n\r\n%x\r\n", len(body))
 					req.Write(body)
 					req.WriteString("\r\n0\r\n\r\n")
@@ -200,6 +212,12 @@ func TestVerifC11Api(t *testing.T) {
 				if _, err := conn.Write(req.Bytes()); err != nil {
 					o.SrvErr = "write: " + err.Error()
 					return
+				}
+				if c.NoCLen {
+					// the announced length may exceed what was sent: end the request so that the server does not wait for more
+					if tc, ok := conn.(*net.TCPConn); ok {
+						_ = tc.CloseWrite()
+					}
 				}
 				br := bufio.NewReader(conn)
 				line, err := br.ReadString('\n')
@@ -225,8 +243,11 @@ func TestVerifC11Api(t *testing.T) {
 			o.SrvPub = rec.n
 		}
 
+		for _, v := range c.XFF {
+			o.XffSplit = append(o.XffSplit, len(strings.Split(v, ",")))
+		}
 		// --- run 2: the handler itself, recorder, recover
-		{
+		if !c.SrvOnly {
 			s, rec := mk()
 			r := httptest.NewRequest(c.Method, path, bytes.NewReader(body))
 			if c.Remote != "" {
